@@ -170,8 +170,11 @@ class Gen:
         if not self.written or r.random() < 0.7: idx.sort()
         d["objects"] = [self.obj(i) for i in idx]
         if r.random() < 0.8:
-            d["comments"] = [r.choice(["first line", "second = line", "100 % comment", "x", "EDS for device 7"])
-                             for _ in range(r.randrange(0, 4))]
+            d["comments"] = [r.choice(["first line", "second = line", "100 % comment", "x", "EDS for device 7", "", ""])
+                             for _ in range(r.randrange(0, 5))]
+            # empty lines inside (and in front of) the comment text are kept by splitlines()/join; a text cannot end
+            # in an empty line (str.splitlines drops a final line break)
+            while d["comments"] and d["comments"][-1] == "": d["comments"].pop()
         else:
             d["comments"] = None if self.written else []
         di = {}
